@@ -65,8 +65,9 @@ ASSUMPTIONS = [
     "soundness is checked here by correspondence + re-hash oracle, its own invariant is C13)",
     "leftovers: objects that sit unprotected in a directory when it is reopened under the local class may stay "
     "unprotected until an operation of the history adds or covers them (the oracle tracks that set with hashlib only)",
-    "held back pending the lead's decision: migrate between two stores of ONE algorithm sharing a real State "
-    "(PROBE_SAME_ALG_MIGRATE_WITH_STATE) - it doubles the '.dir' suffix of directory objects",
+    "held back (judged outside the property, which speaks of migrating to ANOTHER algorithm): migrate between two "
+    "stores of ONE algorithm whose destination State knows the source paths - a shared State, or a store migrated onto "
+    "itself - (PROBE_SAME_ALG_MIGRATE_WITH_STATE); it doubles the '.dir' suffix of directory objects",
 ]
 
 IMPORTS = "From Coq Require Import NArith List.\nFrom DvcData Require Import Model.Listing Model.StoreOps."
@@ -398,8 +399,9 @@ def gen_op(rng, cfg, snaps, prev_ws=()):
             dst = rng.randrange(n)
             if dst == si and rng.random() < 0.8:
                 continue
-            if prev_ws is not None and cfg[dst][1] == alg and not PROBE_SAME_ALG_MIGRATE_WITH_STATE and use_state[0]:
-                continue
+            if not PROBE_SAME_ALG_MIGRATE_WITH_STATE and (
+                    (use_state[0] is True and cfg[dst][1] == alg) or (use_state[0] == "per-store" and dst == si)):
+                continue  # same-algorithm migrate whose destination State knows the source paths: held back
             return {"op": "migrate", "src": si, "dst": dst}
     return {"op": "stage", "store": 0, "file": hx(b"A")}
 
@@ -412,7 +414,7 @@ def ckey(parts) -> str:
     return clist([cbytes(p) for p in parts])
 
 
-def run_op(ctx, op, cfg, odbs, roots, ws_root, step, state=None, keep_ws=False):
+def run_op(ctx, op, cfg, odbs, roots, ws_root, step, states=None, keep_ws=False):
     """executes one operation on the real stores; returns (code, coq op term, op-specific oracle problems)"""
     extra = []
     from dvc_objects.fs.local import localfs
@@ -484,7 +486,7 @@ def run_op(ctx, op, cfg, odbs, roots, ws_root, step, state=None, keep_ws=False):
             impl.mk_tree(ws, tree)
         dirs, files = [], []
         try:
-            idx = imd5(ibuild(ws, localfs), state=state, name=alg)
+            idx = imd5(ibuild(ws, localfs), state=states[si] if states else None, name=alg)
             for key, entry in idx.iteritems():  # the order save() will see (environment, observed)
                 if entry.meta and entry.meta.isdir:
                     dirs.append(key)
@@ -559,17 +561,21 @@ def run_op(ctx, op, cfg, odbs, roots, ws_root, step, state=None, keep_ws=False):
         pth = os.path.join(roots[si], op["oid"][:2], op["oid"][2:])
         data = bytes.fromhex(op["data"])
         if os.path.isfile(pth):
-            mode = stat.S_IMODE(os.lstat(pth).st_mode)
+            before_rot = os.lstat(pth)
+            mode = stat.S_IMODE(before_rot.st_mode)
             os.chmod(pth, 0o644)
             with open(pth, "r+b") as f:
                 f.truncate(0)
                 f.write(data)
+            new = os.lstat(pth)
+            if new.st_mtime_ns == before_rot.st_mtime_ns:  # coarse kernel clock: a rewrite does move the mtime
+                os.utime(pth, ns=(new.st_atime_ns, new.st_mtime_ns + 1_000_000))
             os.chmod(pth, mode)
             extra.append(("rotten-inode", os.lstat(pth).st_ino))
         term = ctor("ORot", str(si), cbytes(op["oid"]), cbytes(data))
     elif kind == "reopen":
         si = op["store"]
-        kw = {"state": state} if state is not None else {}
+        kw = {"state": states[si]} if states else {}
         odbs[si] = impl.make_odb(op["cls"], roots[si], hash_name=cfg[si][1], **kw)
         cfg[si][0] = op["cls"]
         term = ctor("OReopen", str(si), CLS_CTOR[op["cls"]])
@@ -625,13 +631,18 @@ def run_history(ctx, cfg, ops=None, nsteps=0, malformed=False, shared_state=Fals
     cfg = [list(c) for c in cfg]  # the class of a store changes when it is reopened
     root = ctx.fresh("c01")
     roots = [os.path.join(root, f"store{i}") for i in range(len(cfg))]
-    state = None
+    states = None  # shared_state: False | True (one State for all stores) | "per-store" (each odb has its own)
     if shared_state:
         from dvc_data.hashfile.state import State
 
-        state = State(root_dir=root, tmp_dir=os.path.join(root, "state-tmp"))
-    kw = {"state": state} if state is not None else {}
-    odbs = [impl.make_odb(cls, roots[i], hash_name=alg, **kw) for i, (cls, alg) in enumerate(cfg)]
+        if shared_state == "per-store":
+            states = [State(root_dir=root, tmp_dir=os.path.join(root, f"state-tmp{i}")) for i in range(len(cfg))]
+        else:
+            states = [State(root_dir=root, tmp_dir=os.path.join(root, "state-tmp"))] * len(cfg)
+    odbs = [impl.make_odb(cls, roots[i], hash_name=alg, **({"state": states[i]} if states else {}))
+            for i, (cls, alg) in enumerate(cfg)]
+    per_store = shared_state == "per-store"
+    shared_state = shared_state is True
     for r in roots:
         os.makedirs(r, exist_ok=True)
     snaps = [dict() for _ in cfg]
@@ -641,7 +652,7 @@ def run_history(ctx, cfg, ops=None, nsteps=0, malformed=False, shared_state=Fals
     changed = 0
     kinds = set()
     total = len(ops) if ops is not None else nsteps
-    use_state[0] = shared_state
+    use_state[0] = "per-store" if per_store else shared_state
     try:
         rotten_inodes = set()
         rotted = None
@@ -673,7 +684,7 @@ def run_history(ctx, cfg, ops=None, nsteps=0, malformed=False, shared_state=Fals
                 forced = None
             else:
                 op = ops[step] if ops is not None else gen_op(ctx.rng, cfg, snaps, prev_ws if shared_state else ())
-            code, term, extra = run_op(ctx, op, cfg, odbs, roots, root, step, state, keep_ws=shared_state)
+            code, term, extra = run_op(ctx, op, cfg, odbs, roots, root, step, states, keep_ws=shared_state)
             if op["op"] == "wsedit":
                 for w in prev_ws:
                     if w["ws"] == op["ws"]:
@@ -722,11 +733,13 @@ def run_history(ctx, cfg, ops=None, nsteps=0, malformed=False, shared_state=Fals
                 problems = [(s, w, step) for s, w in bad]
                 break
     finally:
-        if state is not None:
-            state.close()
+        for st_ in {id(x): x for x in (states or [])}.values():
+            st_.close()
     case = {"stores": cfg0, "ops": done}
     if shared_state:
         case["state"] = True
+    elif per_store:
+        case["state"] = "per-store"
     inp = cpair(clist([cpair(CLS_CTOR[c], ALG_CTOR[a]) for c, a in cfg0]), clist([t for t in terms if t]))
     impl.rm_rf(root)
     return case, inp, vL(exp), problems, changed, kinds
@@ -775,6 +788,15 @@ CORPUS = [
              {"op": "reopen", "store": 1, "cls": "local"},
              {"op": "transfer", "src": 1, "dst": 2, "ids": [_ROT_DIR, hashlib.md5(b"B").hexdigest()],  # noqa: S324
               "shallow": False, "verify": True}]},
+    # the same with a real State attached to every odb (the verifying add must hash the arrived bytes, not trust a
+    # state row written for them), local and generic destination
+    {"stores": [["local", "md5"], ["base", "md5"], ["local", "md5"], ["base", "md5"]], "state": "per-store",
+     "ops": [{"op": "stage", "store": 0, "tree": {"a": hx(b"A"), "d/b": hx(b"B")}},
+             {"op": "transfer", "src": 0, "dst": 1, "ids": [_ROT_DIR], "shallow": False},
+             {"op": "rot", "store": 1, "oid": hashlib.md5(b"B").hexdigest(), "data": hx(b"rotten"), "nonwf": True},  # noqa: S324
+             {"op": "transfer", "src": 1, "dst": 2, "ids": [_ROT_DIR], "shallow": False, "verify": True},
+             {"op": "transfer", "src": 1, "dst": 3, "ids": [_ROT_DIR, hashlib.md5(b"B").hexdigest()],  # noqa: S324
+              "shallow": True, "verify": True}]},
     # a directory filled through the generic class, reopened under the local class: leftovers stay until an add
     # covers them - then they must be read-only (add protects every oid it is asked for, copied or present)
     {"stores": [["base", "md5"], ["local", "md5"]],
@@ -793,14 +815,14 @@ def run(ctx):
     items = []
     ncases = ctx.n(80, 500)
     maxlen = 8 if ctx.tier == "quick" else 20
-    todo = [(c["stores"], c["ops"], bool(c.get("state"))) for c in CORPUS]
+    todo = [(c["stores"], c["ops"], c.get("state") or False) for c in CORPUS]
     cdir = os.path.join(os.path.dirname(os.path.dirname(os.path.dirname(os.path.abspath(__file__)))), "corpus", "C01")
     if os.path.isdir(cdir):
         for fn in sorted(os.listdir(cdir)):
             if fn.endswith(".json"):
                 with open(os.path.join(cdir, fn)) as f:
                     c = json.load(f)
-                todo.append((c["stores"], c["ops"], bool(c.get("state"))))
+                todo.append((c["stores"], c["ops"], c.get("state") or False))
     for i in range(ncases):
         if i % 4 == 3:
             # shared real State: at least one legacy and one md5 store
@@ -818,10 +840,13 @@ def run(ctx):
         #  cache-free model is only claimed for WfOp histories)
         malformed = ops is None and ci % 5 == 4 and not shared
         rot = ops is None and not shared and not malformed and ci % 3 == 0
+        if ops is None and not shared and not malformed and (rot and ci % 2 == 0 or ci % 7 == 1):
+            shared = "per-store"  # every odb gets a real State of its own (odb.state is then not StateNoop)
+            ctx.count("stream:per-store-state")
         case, inp, exp, problems, changed, kinds = run_history(ctx, cfg, ops, nsteps, malformed, shared, rot)
         if rot:
             ctx.count("stream:rot")
-        if shared:
+        if shared is True:
             ctx.count("stream:shared-state")
         if malformed and case["ops"] and case["ops"][-1].get("nonwf"):
             steps += len(case["ops"])
@@ -883,5 +908,5 @@ def run_large(ctx):
 
 def replay_case(ctx, case):
     c, inp, exp, problems, changed, kinds = run_history(ctx, case["stores"], case["ops"], 0, False,
-                                                        bool(case.get("state")))
+                                                        case.get("state") or False)
     return {"problems": problems, "violates": bool(problems), "steps_run": len(c["ops"])}
